@@ -6,6 +6,6 @@ PROPS="$@"
 [ -z "$PROPS" ] && PROPS=$(python3 -c "import json;print(' '.join(c['property_id'] for c in json.load(open('MANIFEST.json'))['checks']))")
 for p in $PROPS; do
   echo "=== $p seed=$SEED $(date +%H:%M:%S)"
-  ./check $p --tier thorough --seed $SEED 2>&1 | tail -12 | cut -c1-300
+  ./check $p --tier thorough --seed $SEED 2>&1 | grep -v "^20[0-9][0-9]/" | tail -40 | cut -c1-300
   echo "=== $p exit=${PIPESTATUS[0]}"
 done
